@@ -701,6 +701,12 @@ func c12Fixed(tier string) []lib.Case {
 			"create 1,2 1", "opack 1 1 3 nokgr", "opack 2 1 4", "srack 1 1 5", "opack 1 1 6", "current"}},
 		{Header: "M C12", Tags: []string{"odd-payload", "published"}, Ops: []string{
 			"create 1 1", "srack 1 1 -", "opack 1 1 3 emptykgr", "create 1 -", "opack 1 2 4 nokgr", "current", "restart", "current"}},
+		// D55 (open): an id handed out but not persisted before the job process is lost is handed out again, and
+		// acknowledgements made for the old checkpoint complete the new one
+		{Header: "M C12", Tags: []string{"D55", "restart", "published"}, Ops: []string{
+			"create 1 1", "restart", "create 1 1", "opack 1 1 99", "srack 1 1 5", "current"}},
+		{Header: "M C12", Tags: []string{"D55", "restart", "published"}, Ops: []string{
+			"create 1 1", "opack 1 1 0", "srack 1 1 1", "create 1 1", "savepoint 1 1", "restart", "savepoint 1 1", "opack 1 2 7", "srack 1 2 8", "create 1 1"}},
 		// savepoint folds into the pending checkpoint; second request refused
 		{Header: "M C12", Tags: []string{"published"}, Ops: []string{
 			"create 1 1", "savepoint 1 1", "savepoint 1 1", "create 1 1", "opack 1 1 0", "srack 1 1 1", "savepoint - -", "opack 5 2 0", "current"}},
